@@ -9,7 +9,7 @@ PROP = Property(
     coq_targets=["Extract/Extract_Conn.vo"],
     engines=[Engine(name="chan10", c_srcs=["harness/sim.c", "harness/chan_drv.c"],
                     ml_srcs=["ocaml/gen/ConnModel.ml", "ocaml/c10_drv.ml"],
-                    gen=transportgen.gen_c10, wraps=WRAPS, n_quick=3000, n_thorough=100000, timeout=1200)],
+                    gen=transportgen.gen_c10, wraps=WRAPS, n_quick=8000, n_thorough=150000, timeout=1200)],
     trusted_base=["Coq 8.16.1 kernel + coqc", "extraction (ExtrOcamlBasic only) + OCaml 4.13.1",
                   "harness/sim.c (virtual socket layer: never reuses a descriptor, logs every call, failure injection), harness/chan_drv.c, ocaml/c10_drv.ml, gen/transportgen.py",
                   "clang 14 ASan/UBSan"],
